@@ -254,6 +254,99 @@ theorem lmpRun_tail (N : Nat) (hN : 1 ≤ N) (f : LmpF) (hf : f.WF N) (as : List
     · exact fun h => h.1
     · intro h; refine ⟨h, ?_⟩; rintro rfl; simp at h; omega
   simp only [hne, List.flatten_cons, List.length_append, List.flatten_nil, List.length_nil]
-  congr 2 <;> (first | rfl | (simp only [LSt.mk.injEq]; omega))
+  simp only [Nat.add_assoc]
+
+/-! ### what any continuing step preserves -/
+
+theorem lEnd_fields (st : LSt) (tell' : Nat) :
+    (lEnd st tell').i = st.i + 1 ∧ (lEnd st tell').block = st.block ∧ (lEnd st tell').natoms = st.natoms ∧
+    (¬ (st.i % st.block = st.block - 1 ∧ st.i > 0) →
+      (lEnd st tell').traj = st.traj ∧ (lEnd st tell').pos = st.pos) := by
+  unfold lEnd
+  split <;> simp_all
+
+theorem lBody_cont (st : LSt) (line : Line) (spl : List Tok) (tell' : Nat) (s' : LSt)
+    (h : lBody st line spl tell' = .cont s') :
+    ∃ st2, s' = lEnd st2 tell' ∧ st2.i = st.i ∧ st2.block = st.block ∧ st2.natoms = st.natoms ∧
+      st2.traj = st.traj ∧ st2.pos = st.pos := by
+  unfold lBody at h
+  by_cases hbx : 5 ≤ st.i % st.block ∧ st.i % st.block ≤ 7
+  · simp only [hbx, and_self, if_true] at h
+    by_cases hc : ((spl.length ≠ 2 ∧ spl.length ≠ 3) ∨ endsNl line = false)
+    · simp only [hc, if_true] at h; cases h
+    · simp only [hc, if_false] at h
+      by_cases hf : spl.all floatOk = true
+      · simp only [hf, if_true] at h
+        injection h with h; exact ⟨_, h.symm, rfl, rfl, rfl, rfl, rfl⟩
+      · simp only [hf] at h; cases h
+  · simp only [hbx, if_false] at h
+    by_cases h9 : 9 ≤ st.i % st.block
+    · simp only [h9, if_true] at h
+      by_cases hc : (spl.length ≠ 9 ∨ spl.head? ≠ spl.getLast?)
+      · simp only [hc, if_true] at h; cases h
+      · simp only [hc, if_false] at h
+        cases hp : parseInt (spl.headD []) with
+        | none => simp only [hp] at h; cases h
+        | some id =>
+          simp only [hp] at h
+          cases hk : pyIndex st.natoms (id - 1) with
+          | none => simp only [hk] at h; cases h
+          | some k =>
+            simp only [hk] at h
+            by_cases hf : (List.take 6 (List.drop 2 spl)).all floatOk = true
+            · simp only [hf, if_true] at h
+              injection h with h; exact ⟨_, h.symm, rfl, rfl, rfl, rfl, rfl⟩
+            · simp only [hf] at h; cases h
+    · simp only [h9, if_false] at h
+      injection h with h; exact ⟨_, h.symm, rfl, rfl, rfl, rfl, rfl⟩
+
+theorem lmpStep_cont (st : LSt) (line : Line) (s' : LSt) (h : lmpStep st line = .cont s') (h3 : st.i ≠ 3) :
+    s'.i = st.i + 1 ∧ s'.block = st.block ∧ s'.natoms = st.natoms ∧
+    (¬ (st.i % st.block = st.block - 1 ∧ st.i > 0) → s'.traj = st.traj ∧ s'.pos = st.pos) := by
+  unfold lmpStep at h
+  split at h
+  · cases h
+  · simp only [h3, if_false] at h
+    obtain ⟨st2, rfl, hi, hb, hn, ht, hp⟩ := lBody_cont _ _ _ _ _ h
+    obtain ⟨e1, e2, e3, e4⟩ := lEnd_fields st2 (st.tell + line.length)
+    refine ⟨by rw [e1, hi], by rw [e2, hb], by rw [e3, hn], ?_⟩
+    intro hq
+    rw [← hi, ← hb] at hq
+    obtain ⟨e5, e6⟩ := e4 hq
+    exact ⟨by rw [e5, ht], by rw [e6, hp]⟩
+
+/-- a run in which no step is the atom-count line of the first frame or the last line of a block keeps
+    `block_size`, `N_atoms`, `trajectory` and `current_position` -/
+theorem lmpRun_quiet (A : List Line) (st S : LSt) (h : lmpRun A st = .cont S) (B : Nat) (hb : st.block = B)
+    (hq : ∀ j, j < A.length → st.i + j ≠ 3 ∧ ¬ ((st.i + j) % B = B - 1 ∧ st.i + j > 0)) :
+    S.i = st.i + A.length ∧ S.block = B ∧ S.natoms = st.natoms ∧ S.traj = st.traj ∧ S.pos = st.pos := by
+  induction A generalizing st with
+  | nil => simp only [lmpRun] at h; injection h with h; subst h; simp [hb]
+  | cons l A ih =>
+    simp only [lmpRun] at h
+    cases hs : lmpStep st l with
+    | ret r => rw [hs] at h; cases h
+    | err e => rw [hs] at h; cases h
+    | cont s1 =>
+      rw [hs] at h
+      have h0 := hq 0 (by simp)
+      simp only [Nat.add_zero] at h0
+      obtain ⟨e1, e2, e3, e4⟩ := lmpStep_cont st l s1 hs h0.1
+      obtain ⟨e5, e6⟩ := e4 (by rw [hb]; exact h0.2)
+      have := ih s1 h (by rw [e2, hb]) (by
+        intro j hj
+        have := hq (j + 1) (by simp; omega)
+        rw [e1, show st.i + 1 + j = st.i + (j + 1) by omega]
+        exact this)
+      obtain ⟨f1, f2, f3, f4, f5⟩ := this
+      refine ⟨by rw [f1, e1]; simp; omega, f2, by rw [f3, e3], by rw [f4, e5], by rw [f5, e6]⟩
+
+theorem lmpRun_prefix_cont (A B : List Line) (st S : LSt) (h : lmpRun (A ++ B) st = .cont S) :
+    ∃ S', lmpRun A st = .cont S' ∧ lmpRun B S' = .cont S := by
+  rw [lmpRun_append] at h
+  cases hA : lmpRun A st with
+  | cont S' => rw [hA] at h; exact ⟨S', rfl, h⟩
+  | ret r => rw [hA] at h; cases h
+  | err e => rw [hA] at h; cases h
 
 end Infretis.Readers
